@@ -12,7 +12,7 @@ namespace RRule
 inductive Family where
   | daily | weekly | yearlyMonthly | monthlyNth | yearlyNth | yearlyBymonthNth | yearlyEaster | yearlyWeekno
   | monthlyWeekno
-  | hourly | hourlyByhour | minutely | minutelyByminute | minutelyByhour | secondly
+  | hourly | hourlyByhour | minutely | minutelyByminute | minutelyByhour | secondly | secondlyByhm | secondlyBysecond
   deriving Repr, DecidableEq, Inhabited
 
 def Family.name : Family → String
@@ -20,11 +20,12 @@ def Family.name : Family → String
   | .yearlyNth => "yearly_nth" | .yearlyBymonthNth => "yearly_bymonth_nth" | .yearlyEaster => "yearly_easter"
   | .yearlyWeekno => "yearly_weekno" | .monthlyWeekno => "monthly_weekno" | .hourly => "hourly" | .hourlyByhour => "hourly_byhour"
   | .minutely => "minutely" | .minutelyByminute => "minutely_byminute" | .minutelyByhour => "minutely_byhour" | .secondly => "secondly"
+  | .secondlyByhm => "secondly_byhour_byminute" | .secondlyBysecond => "secondly_bysecond"
 
 def Family.all : List Family :=
   [.daily, .weekly, .yearlyMonthly, .monthlyNth, .yearlyNth, .yearlyBymonthNth, .yearlyEaster, .yearlyWeekno,
    .monthlyWeekno,
-   .hourly, .hourlyByhour, .minutely, .minutelyByminute, .minutelyByhour, .secondly]
+   .hourly, .hourlyByhour, .minutely, .minutelyByminute, .minutelyByhour, .secondly, .secondlyByhm, .secondlyBysecond]
 
 /-- the optional list is given, non-empty, and satisfies `P` -/
 def someWith {α} (o : Option (List α)) (P : List α → Prop) : Prop :=
@@ -89,6 +90,28 @@ def reachableS (a : Args) : Prop :=
       (((a.dtstart.hh * 60 + a.dtstart.mm) * 60 + a.dtstart.ss + (j : Int) * a.interval) / 60 % 60))) = true
 instance (a : Args) : Decidable (reachableS a) := by unfold reachableS; exact inferInstance
 
+/-- an absent BY list allows every value -/
+def listedO (o : Option (List Int)) (x : Int) : Bool := o.isNone || (o.getD []).contains x
+
+/-- hour, minute and second all pass their (optional) BY lists -/
+def listed3 (a : Args) (h m s : Int) : Bool :=
+  listedO a.byhour h && listedO a.byminute m && listedO a.bysecond s
+
+/-- SECONDLY with BYSECOND (BYHOUR, BYMINUTE optional): some second of the grid (orbit of the start under `+INTERVAL`,
+    which repeats after at most 86400 steps) has listed hour, minute and second.  With `a.bysecond = none` this is
+    `reachableS a`.  On the complement the recurrence set is empty (and `_iter` raises ValueError at the first `next()`). -/
+def reachableSS (a : Args) : Prop :=
+  (List.range 86400).any (fun j =>
+    listed3 a
+      (((a.dtstart.hh * 60 + a.dtstart.mm) * 60 + a.dtstart.ss + (j : Int) * a.interval) / 3600 % 24)
+      (((a.dtstart.hh * 60 + a.dtstart.mm) * 60 + a.dtstart.ss + (j : Int) * a.interval) / 60 % 60)
+      (((a.dtstart.hh * 60 + a.dtstart.mm) * 60 + a.dtstart.ss + (j : Int) * a.interval) % 60)) = true
+instance (a : Args) : Decidable (reachableSS a) := by unfold reachableSS; exact inferInstance
+
+/-- a BY list is absent or given and non-empty -/
+def optNonempty (o : Option (List Int)) : Prop := o = none ∨ someWith o (fun _ => True)
+instance (o : Option (List Int)) : Decidable (optNonempty o) := by unfold optNonempty; exact inferInstance
+
 /-- **the families with an exactness theorem** -/
 def SupportedBy (a : Args) : Family → Prop
   | .daily => a.freq = 3 ∧ baseOk a ∧ wArgOk a ∧ a.byeaster = none
@@ -118,6 +141,10 @@ def SupportedBy (a : Args) : Family → Prop
       someWith a.byhour (fun _ => True) ∧ a.byminute = none ∧ secondsOk a ∧ reachableHourM a
   | .secondly => a.freq = 6 ∧ baseOk a ∧ wArgOk a ∧ a.byeaster = none ∧ a.byhour = none ∧
       a.byminute = none ∧ a.bysecond = none
+  | .secondlyByhm => a.freq = 6 ∧ baseOk a ∧ wArgOk a ∧ a.byeaster = none ∧ optNonempty a.byhour ∧
+      optNonempty a.byminute ∧ a.bysecond = none ∧ reachableS a
+  | .secondlyBysecond => a.freq = 6 ∧ baseOk a ∧ wArgOk a ∧ a.byeaster = none ∧ optNonempty a.byhour ∧
+      optNonempty a.byminute ∧ a.bysecond ≠ none ∧ reachableSS a
 
 instance (a : Args) (f : Family) : Decidable (SupportedBy a f) := by
   cases f <;> (unfold SupportedBy; exact inferInstance)
@@ -130,7 +157,8 @@ def Supported (a : Args) : Prop := ∃ f, SupportedBy a f
 
 /-- how many periods of the specification `n` turns of the generator's loop may correspond to -/
 def Family.periodsPerTurn : Family → Nat
-  | .hourly => 24 | .hourlyByhour => 48 | .minutely => 1440 | .minutelyByminute => 1500 | .minutelyByhour => 2880 | .secondly => 86400 | _ => 1
+  | .hourly => 24 | .hourlyByhour => 48 | .minutely => 1440 | .minutelyByminute => 1500 | .minutelyByhour => 2880 | .secondly => 86400
+  | .secondlyByhm => 172800 | .secondlyBysecond => 172800 | _ => 1
 
 /-- the first `n` turns stay inside datetime's range (for BYEASTER: inside 1583..4099) -/
 def inRange (a : Args) (f : Family) (n : Nat) : Prop :=
@@ -155,5 +183,7 @@ def inRange (a : Args) (f : Family) (n : Nat) : Prop :=
       (Cal.maxOrdinal + 1) * 1440
   | .secondly => ((Spec.RRule.startOrd a * 24 + a.dtstart.hh) * 60 + a.dtstart.mm) * 60 + a.dtstart.ss +
       (86400 * n + 1) * a.interval + 86399 < (Cal.maxOrdinal + 1) * 86400
+  | .secondlyByhm | .secondlyBysecond => ((Spec.RRule.startOrd a * 24 + a.dtstart.hh) * 60 + a.dtstart.mm) * 60 + a.dtstart.ss +
+      (172800 * n + 86400) * a.interval + 86399 < (Cal.maxOrdinal + 1) * 86400
 
 end RRule
